@@ -38,8 +38,8 @@ package decoder
 //@   loop 1 decreases len(b) - offset
 //@ contract (*decoder.PathDecoder).hoverContentForLabel (d, i, block, bSchema) (content)
 //@   requires block != nil && bSchema != nil && 0 <= i && i < len(bSchema.Labels) && i < len(block.Labels)
-//@   ensures [C12,name:dependent-description-first] implies(labelSchema.IsDepKey && (result == schemahelper.LookupSuccessful || result == schemahelper.LookupPartiallySuccessful) && bs.HoverURL == "" && bs.Description.Value != "", endsWith(content.Value, "\n\n" + bs.Description.Value))
-//@   ensures [C12,name:static-description-otherwise] implies(labelSchema.IsDepKey && (result == schemahelper.LookupSuccessful || result == schemahelper.LookupPartiallySuccessful) && bs.HoverURL == "" && bs.Description.Value == "" && labelSchema.Description.Value != "", endsWith(content.Value, "\n\n" + labelSchema.Description.Value))
+//@   ensures [C12,C16,name:dependent-description-first] implies(labelSchema.IsDepKey && (result == schemahelper.LookupSuccessful || result == schemahelper.LookupPartiallySuccessful) && bs.HoverURL == "" && bs.Description.Value != "", endsWith(content.Value, "\n\n" + bs.Description.Value))
+//@   ensures [C12,C16,name:static-description-otherwise] implies(labelSchema.IsDepKey && (result == schemahelper.LookupSuccessful || result == schemahelper.LookupPartiallySuccessful) && bs.HoverURL == "" && bs.Description.Value == "" && labelSchema.Description.Value != "", endsWith(content.Value, "\n\n" + labelSchema.Description.Value))
 
 // ---- C20: signature help. Contract of the visitor closure of SignatureAtPos (free variables d, pos,
 // ---- file, signature); hclsyntax.VisitAll is pre-order, so a deeper call overwrites an outer one.
@@ -47,7 +47,7 @@ package decoder
 //@ spec isCall(n hclsyntax.Node) bool = typeis(n, "*hclsyntax.FunctionCallExpr")
 //@ contract (*decoder.PathDecoder).SignatureAtPos$1 (node) (diags)
 //@   requires d != nil && d.pathCtx != nil && file != nil && 0 <= pos.Byte && pos.Byte <= len(file.Bytes)
-//@   loop 1 iter [C20] !(v.Range().ContainsPos(pos) || v.Range().End.Byte == pos.Byte)
+//@   loop 1 iter [C20] v.Range().Start.Byte <= pos.Byte && !(v.Range().ContainsPos(pos) || v.Range().End.Byte == pos.Byte)
 //@   ghost noComma after bytes.TrimRight#1 : string(callresult) != ","
 //@   ghost sawComma after bytes.TrimRight#1 : string(callresult) == ","
 //@   ensures [C20,name:argument-before-the-cursor] implies(signature != old(signature) && noComma && lastArgIdx < paramsLen, int(signature.ActiveParameter) == lastArgIdx)
@@ -169,11 +169,12 @@ package decoder
 // ---- C09: addresses of targets. The context handed to element collectors is a copy whose parent address
 // ---- is its own array; block/attribute addresses are built step by step from what the schema declares.
 //@ contract (*decoder.TargetContext).Copy (tctx) (result)
-//@   ensures [C09] (tctx == nil) == (result == nil)
-//@   ensures [C09] implies(tctx != nil, fresh(result) && fresh(result.ParentAddress) && len(result.ParentAddress) == len(tctx.ParentAddress) && cap(result.ParentAddress) == len(result.ParentAddress))
-//@   ensures [C09] implies(tctx != nil, forall(j, 0, len(tctx.ParentAddress), result.ParentAddress[j] == tctx.ParentAddress[j]))
-//@   ensures [C09] implies(tctx != nil, fresh(result.ParentLocalAddress) && len(result.ParentLocalAddress) == len(tctx.ParentLocalAddress) && freshOrNil(result.TargetableFromRangePtr))
-//@   ensures [C09] implies(tctx != nil, result.FriendlyName == tctx.FriendlyName && result.ScopeId == tctx.ScopeId && result.AsExprType == tctx.AsExprType && result.AsReference == tctx.AsReference)
+//@   ensures [C09,C11,C03,C04,C05] (tctx == nil) == (result == nil)
+//@   ensures [C09,C11,C03,C04,C05] implies(tctx != nil, fresh(result) && fresh(result.ParentAddress) && len(result.ParentAddress) == len(tctx.ParentAddress) && cap(result.ParentAddress) == len(result.ParentAddress))
+//@   ensures [C09,C11,C03,C04,C05] implies(tctx != nil, forall(j, 0, len(tctx.ParentAddress), result.ParentAddress[j] == tctx.ParentAddress[j]))
+//@   ensures [C09,C11,C03,C04,C05] implies(tctx != nil, fresh(result.ParentLocalAddress) && len(result.ParentLocalAddress) == len(tctx.ParentLocalAddress) && freshOrNil(result.TargetableFromRangePtr))
+//@   ensures [C09,C11,C03,C04,C05] implies(tctx != nil, result.FriendlyName == tctx.FriendlyName && result.ScopeId == tctx.ScopeId && result.AsExprType == tctx.AsExprType && result.AsReference == tctx.AsReference)
+//@   ensures [C09,C11] implies(tctx != nil, (tctx.TargetableFromRangePtr == nil) == (result.TargetableFromRangePtr == nil) && implies(tctx.TargetableFromRangePtr != nil, *result.TargetableFromRangePtr == *tctx.TargetableFromRangePtr))
 //@ contract decoder.resolveBlockAddress (block, blockSchema) (result, ok)
 //@   requires block != nil && blockSchema != nil
 //@   loop 1 invariant [C09] len(address) <= rangeindex + 1 && fresh(address)
@@ -187,8 +188,6 @@ package decoder
 //@   loop 1 iter [C09] len(address) == old(len(address)) + 1 && ite(i == 0, typeis(address[len(address)-1], "lang.RootStep") && as(address[len(address)-1], "lang.RootStep").Name == stepName, typeis(address[len(address)-1], "lang.AttrStep") && as(address[len(address)-1], "lang.AttrStep").Name == stepName)
 //@ spec extendsByOne(child lang.Address, parent lang.Address) bool = len(child) == len(parent) + 1 && forall(j, 0, len(parent), child[j] == parent[j])
 //@ contract (decoder.List).ReferenceTargets (list, ctx, targetCtx) (result)
-//@   assert before invoke:ReferenceTargets#2 : [C09] extendsByOne(arg1.ParentAddress, targetCtx.ParentAddress) && typeis(arg1.ParentAddress[len(targetCtx.ParentAddress)], "lang.IndexStep") && as(arg1.ParentAddress[len(targetCtx.ParentAddress)], "lang.IndexStep").Key == cty.NumberIntVal(int64(i))
-//@ contract (decoder.Tuple).ReferenceTargets (tuple, ctx, targetCtx) (result)
 //@   assert before invoke:ReferenceTargets#2 : [C09] extendsByOne(arg1.ParentAddress, targetCtx.ParentAddress) && typeis(arg1.ParentAddress[len(targetCtx.ParentAddress)], "lang.IndexStep") && as(arg1.ParentAddress[len(targetCtx.ParentAddress)], "lang.IndexStep").Key == cty.NumberIntVal(int64(i))
 
 // ---- C10: origins. Two origins are merged only if they are the same reference written at the same place;
@@ -233,8 +232,8 @@ package decoder
 // ---- link per label key, on the label that key names (by its Index, not by its position in the key list),
 // ---- and one per attribute key written in the block, on that attribute's value.
 //@ contract (*decoder.PathDecoder).linksInBody (d, body, bodySchema) (links, err)
-//@   loop 2 iter [C16] len(links) == old(len(links)) + 1 && links[len(links)-1].Range == block.LabelRanges[dk.Labels[rangeindex].Index]
-//@   loop 3 iter [C16] len(links) == old(len(links)) || (len(links) == old(len(links)) + 1 && haskey(block.Body.Attributes, dk.Attributes[rangeindex].Name) && links[len(links)-1].Range == block.Body.Attributes[dk.Attributes[rangeindex].Name].Expr.Range())
+//@   loop 2 iter [C16,C02] len(links) == old(len(links)) + 1 && links[len(links)-1].Range == block.LabelRanges[dk.Labels[rangeindex].Index]
+//@   loop 3 iter [C16,C02] len(links) == old(len(links)) || (len(links) == old(len(links)) + 1 && haskey(block.Body.Attributes, dk.Attributes[rangeindex].Name) && links[len(links)-1].Range == block.Body.Attributes[dk.Attributes[rangeindex].Name].Expr.Range())
 
 // ---- C12: an object item is described with the schema of its own key: the attribute schema used for the
 // ---- key's hover and the constraint the value is handed to are the ones declared under that item's name.
@@ -417,3 +416,146 @@ package decoder
 //@   requires aSchema != nil
 //@   ensures [C12] len(content.Value) > 0
 //@   ensures [C12] implies(aSchema.Description.Value != "", endsWith(content.Value, "\n\n" + aSchema.Description.Value))
+
+// ---- C14: the document outline of a native-syntax file is what symbolsForBody yields for its root body,
+// ---- whatever the body contains.
+//@ contract (*decoder.PathDecoder).SymbolsInFile (d, filename) (result, err)
+//@   ghost outlined after (*decoder.PathDecoder).symbolsForBody#1 : true
+//@   ensures [C14] implies(err == nil, outlined)
+// ---- C13: a keyword token is given to the bare keyword only (a one-step traversal), and parenthesised map
+// ---- keys are read as expressions only where the constraint allows interpolated keys.
+//@ contract (decoder.Keyword).SemanticTokens (kw, ctx) (result)
+//@   ensures [C13] implies(len(result) > 0, typeis(kw.expr, "*hclsyntax.ScopeTraversalExpr") && len(as(kw.expr, "*hclsyntax.ScopeTraversalExpr").Traversal) == 1)
+//@ contract (decoder.Map).SemanticTokens (m, ctx) (result)
+//@   assert before decoder.newExpression#2 : [C13] m.cons.AllowInterpolatedKeys
+
+// ---- C12: a literal value constraint describes a written literal only if it IS that value.
+//@ contract (decoder.LiteralValue).HoverAtPos (lv, ctx, pos) (result)
+//@   requires [C12] lv.expr.Range().ContainsPos(pos)
+//@   ensures [C12] result == nil || (result.Range.ContainsPos(pos) && len(result.Content.Value) > 0)
+//@   ensures [C12,name:described-only-if-equal] implies(result != nil && typ != cty.String && typ.IsPrimitiveType(), lv.cons.Value.RawEquals(val))
+
+// ---- every element is examined: the loops below have no break and no return inside, i.e. they are left only
+// ---- when their range is exhausted (generated from the control-flow graph of the pinned tree with
+// ---- `govc loops`; tagged with the properties anchored in the function's file). An added early exit in a
+// ---- collecting loop silently drops the remaining elements.
+//@ loop-complete (*decoder.BlockSymbol).Name 1 C14
+//@ loop-complete (*decoder.Decoder).ReferenceOriginsTargetingPos 1 C10,C11
+//@ loop-complete (*decoder.Decoder).ReferenceOriginsTargetingPos 2 C10,C11
+//@ loop-complete (*decoder.Decoder).ReferenceOriginsTargetingPos 3 C10,C11
+//@ loop-complete (*decoder.Decoder).ReferenceTargetsForOriginAtPos 1 C02,C09,C11
+//@ loop-complete (*decoder.Decoder).ReferenceTargetsForOriginAtPos 2 C02,C09,C11
+//@ loop-complete (*decoder.Decoder).Symbols 1 C02,C14
+//@ loop-complete (*decoder.PathDecoder).CollectReferenceOrigins 1 C10,C11
+//@ loop-complete (*decoder.PathDecoder).CollectReferenceOrigins 2 C10,C11
+//@ loop-complete (*decoder.PathDecoder).CollectReferenceOrigins 3 C10,C11
+//@ loop-complete (*decoder.PathDecoder).CollectReferenceTargets 1 C02,C09,C11
+//@ loop-complete (*decoder.PathDecoder).SignatureAtPos$1 2 C20
+//@ loop-complete (*decoder.PathDecoder).Validate 1 C15
+//@ loop-complete (*decoder.PathDecoder).collectInferredReferenceTargetsForBody 1 C02,C09,C11
+//@ loop-complete (*decoder.PathDecoder).collectInferredReferenceTargetsForBody 2 C02,C09,C11
+//@ loop-complete (*decoder.PathDecoder).collectInferredReferenceTargetsForBody 3 C02,C09,C11
+//@ loop-complete (*decoder.PathDecoder).collectInferredReferenceTargetsForBody 4 C02,C09,C11
+//@ loop-complete (*decoder.PathDecoder).collectInferredReferenceTargetsForBody 5 C02,C09,C11
+//@ loop-complete (*decoder.PathDecoder).collectInferredReferenceTargetsForBody 6 C02,C09,C11
+//@ loop-complete (*decoder.PathDecoder).collectInferredReferenceTargetsForBody 7 C02,C09,C11
+//@ loop-complete (*decoder.PathDecoder).collectInferredReferenceTargetsForBody 8 C02,C09,C11
+//@ loop-complete (*decoder.PathDecoder).decodeReferenceTargetsForBody 1 C02,C09,C11
+//@ loop-complete (*decoder.PathDecoder).decodeReferenceTargetsForBody 2 C02,C09,C11
+//@ loop-complete (*decoder.PathDecoder).decodeReferenceTargetsForBody 3 C02,C09,C11
+//@ loop-complete (*decoder.PathDecoder).labelCandidatesFromDependentSchema 2 C06,C07,C16
+//@ loop-complete (*decoder.PathDecoder).linksInBody 1 C02,C16
+//@ loop-complete (*decoder.PathDecoder).linksInBody 2 C02,C16
+//@ loop-complete (*decoder.PathDecoder).linksInBody 3 C02,C16
+//@ loop-complete (*decoder.PathDecoder).nestedSymbolsForExpr 1 C02,C14
+//@ loop-complete (*decoder.PathDecoder).nestedSymbolsForExpr 2 C02,C14
+//@ loop-complete (*decoder.PathDecoder).referenceOriginsInBody 1 C10,C11
+//@ loop-complete (*decoder.PathDecoder).referenceOriginsInBody 2 C10,C11
+//@ loop-complete (*decoder.PathDecoder).symbols 2 C02,C14
+//@ loop-complete (*decoder.PathDecoder).symbolsForBody 1 C02,C14
+//@ loop-complete (*decoder.PathDecoder).symbolsForBody 2 C02,C14
+//@ loop-complete (*decoder.PathDecoder).tokensForBody 1 C13
+//@ loop-complete (*decoder.PathDecoder).tokensForBody 2 C13
+//@ loop-complete (*decoder.PathDecoder).tokensForBody 3 C13
+//@ loop-complete (*decoder.snippetGenerator).forLiteralType 1 C06,C08
+//@ loop-complete (*decoder.snippetGenerator).forLiteralType 2 C06,C08
+//@ loop-complete (decoder.Any).CompletionAtPos 1 C06,C08
+//@ loop-complete (decoder.Any).HoverAtPos 1 C12
+//@ loop-complete (decoder.Any).ReferenceOrigins 1 C10
+//@ loop-complete (decoder.Any).ReferenceTargets 1 C09
+//@ loop-complete (decoder.Any).SemanticTokens 1 C13
+//@ loop-complete (decoder.Any).refOriginsForNonComplexExpr 1 C10
+//@ loop-complete (decoder.Any).refOriginsForTemplateExpr 1 C10,C12,C13
+//@ loop-complete (decoder.Any).semanticTokensForTemplateExpr 1 C10,C12,C13
+//@ loop-complete (decoder.List).ReferenceOrigins 1 C10
+//@ loop-complete (decoder.List).ReferenceTargets 1 C09
+//@ loop-complete (decoder.List).SemanticTokens 1 C13
+//@ loop-complete (decoder.LiteralType).CompletionAtPos 1 C06,C08
+//@ loop-complete (decoder.LiteralType).HoverAtPos 1 C12
+//@ loop-complete (decoder.LiteralType).ReferenceTargets 1 C09
+//@ loop-complete (decoder.LiteralType).SemanticTokens 1 C13
+//@ loop-complete (decoder.LiteralValue).HoverAtPos 3 C12
+//@ loop-complete (decoder.LiteralValue).SemanticTokens 3 C13
+//@ loop-complete (decoder.LiteralValue).SemanticTokens 4 C13
+//@ loop-complete (decoder.Map).ReferenceOrigins 1 C10
+//@ loop-complete (decoder.Map).ReferenceTargets 1 C09
+//@ loop-complete (decoder.Map).SemanticTokens 1 C13
+//@ loop-complete (decoder.Object).ReferenceOrigins 1 C10
+//@ loop-complete (decoder.Object).ReferenceTargets 1 C09
+//@ loop-complete (decoder.Object).SemanticTokens 1 C13
+//@ loop-complete (decoder.Object).collectAttributeTargets 1 C09
+//@ loop-complete (decoder.OneOf).CompletionAtPos 1 C06,C08
+//@ loop-complete (decoder.OneOf).ReferenceOrigins 1 C10
+//@ loop-complete (decoder.Set).ReferenceOrigins 1 C10
+//@ loop-complete (decoder.Set).ReferenceTargets 1 C09
+//@ loop-complete (decoder.Set).SemanticTokens 1 C13
+//@ loop-complete (decoder.Tuple).CompletionAtPos 1 C06,C08
+//@ loop-complete (decoder.Tuple).collectTupleElemTargets 1 C09
+//@ loop-complete (decoder.TypeDeclaration).tupleSemanticTokens 1 C13
+//@ loop-complete (decoder.blockTypes).OfSchemaType 1 C02,C09,C11
+//@ loop-complete (decoder.functionExpr).matchingFunctions 1 C02,C08,C10,C12,C13
+//@ loop-complete (decoder.validationWalker).Visit 1 C15
+//@ loop-complete decoder.appendOrigins 1 C10
+//@ loop-complete decoder.blocksTypesWithSchema 1 C02,C09,C11
+//@ loop-complete decoder.bodySchemaAsAttrTypes 1 C02,C09,C11
+//@ loop-complete decoder.bodySchemaAsAttrTypes 2 C02,C09,C11
+//@ loop-complete decoder.ctyObjectToObjectAttributes 1 C06,C08
+//@ loop-complete decoder.decodeTargetableBody 1 C02,C09,C11
+//@ loop-complete decoder.generateRequiredFieldsSnippet 1 C06,C07,C16
+//@ loop-complete decoder.hoverContentForType 1 C12
+//@ loop-complete decoder.newTextForLiteralType 1 C06,C08
+//@ loop-complete decoder.newTextForLiteralType 2 C06,C08
+//@ loop-complete decoder.objectAttributesToCandidates 1 C02,C06,C08
+//@ loop-complete decoder.parameterNamesAsString 1 C20
+//@ loop-complete decoder.requiredFieldsSnippet 1 C06,C07,C16
+//@ loop-complete decoder.requiredFieldsSnippet 2 C06,C07,C16
+//@ loop-complete decoder.requiredFieldsSnippet 3 C06,C07,C16
+//@ loop-complete decoder.requiredFieldsSnippet 4 C06,C07,C16
+//@ loop-complete decoder.semanticTokensForTraversal 1 C02,C13
+//@ loop-complete decoder.snippetForBlock 1 C06,C07
+//@ loop-complete decoder.snippetForBlock 2 C06,C07
+//@ loop-complete decoder.snippetForBlock 3 C06,C07
+//@ loop-complete decoder.snippetForBlock 4 C06,C07
+//@ loop-complete decoder.sortedAttributeNames 1 C06,C07
+//@ loop-complete decoder.sortedBlockTypes 1 C06,C07
+//@ loop-complete decoder.sortedKeysOfValueMap 1 C06,C08
+//@ loop-complete decoder.sortedObjectAttrNames 1 C06,C07
+//@ loop-complete decoder.sortedObjectAttributeNames 1 C02,C06,C08
+//@ loop-complete decoder.sortedSchemaKeys 1 C06,C07,C16
+
+// ---- C10/C09: origins and targets of a collection literal under a type constraint are read with the
+// ---- element type of that type.
+//@ contract (decoder.Any).ReferenceOrigins (a, ctx) (result)
+//@   assert before (decoder.List).ReferenceOrigins#1 : [C10] elemTypeOf(arg0.cons.Elem) == typ.ElementType() && arg0.expr == a.expr
+//@   assert before (decoder.Set).ReferenceOrigins#1 : [C10] elemTypeOf(arg0.cons.Elem) == typ.ElementType() && arg0.expr == a.expr
+//@   assert before (decoder.Map).ReferenceOrigins#1 : [C10] elemTypeOf(arg0.cons.Elem) == typ.ElementType() && arg0.expr == a.expr
+// ---- C09: only attributes whose constraint yields a type are part of a block's data type; the target of a
+// ---- for-expression tuple has a range (the parent's, or the expression's own); validation walks every file.
+//@ contract (decoder.Tuple).collectTupleElemTargets (tuple, ctx, targetCtx, declaredElems) (result)
+//@   assert before decoder.newExpression#1 : [C09] arg2 == tuple.cons.Elems[i] && implies(len(declaredElems) >= i + 1, arg1 == declaredElems[i])
+//@   assert before invoke:ReferenceTargets#2 : [C09] extendsByOne(arg1.ParentAddress, targetCtx.ParentAddress) && typeis(arg1.ParentAddress[len(targetCtx.ParentAddress)], "lang.IndexStep") && as(arg1.ParentAddress[len(targetCtx.ParentAddress)], "lang.IndexStep").Key == cty.NumberIntVal(int64(i))
+//@ contract (decoder.Tuple).ReferenceTargets (tuple, ctx, targetCtx) (result)
+//@   ensures [C09,C02] implies(typeis(tuple.expr, "*hclsyntax.ForExpr") && targetCtx != nil, len(result) == 1 && result[0].RangePtr != nil)
+//@ contract (*decoder.PathDecoder).Validate (d, ctx) (result, err)
+//@   ghost walked after walker.Walk#1 : true
+//@   loop 1 iter [C15] implies(typeis(f.Body, "*hclsyntax.Body"), walked)
